@@ -376,6 +376,12 @@ func (rl *respDeserializer) peekBulkLine(length int) (line respBulkString, valid
 		panic("already determined the next line")
 	}
 
+	if length > len(rl.content) {
+		// cannot fit (and keeps pos+length+2 from wrapping around)
+		valid = false
+		return
+	}
+
 	rl.nextPos = rl.pos + length + 2
 	if rl.nextPos > len(rl.content) {
 		valid = false
